@@ -613,6 +613,8 @@ def gen_history(rng):
     # small per-run pools so that collisions are frequent
     epool = [gen.gen_expr(rng, ids, rng.choice([1, 2, 3])) for _ in range(6)]
     bpool = [rng.choice(gen.BYTES_POOL) for _ in range(6)] + [gen.gen_random_bytes(rng) for _ in range(2)]
+    mtx = rng.sample(gen.ASM_MEMTXT, 3)
+    lpool = [gen.gen_asm_line(rng, mtx) for _ in range(8)]
     def pick_expr():
         if expr_results and rng.random() < ref_p:
             return {'ref': rng.choice(expr_results)}
@@ -696,7 +698,12 @@ def gen_history(rng):
                 if 'mode' not in op:
                     dis_results.append((len(ops) - 1, hx))
             elif y < 0.38:
-                line = rng.choice(gen.INTEL_BAD) if rng.random() < bad_p else rng.choice(gen.INTEL_LINES)
+                if rng.random() < bad_p:
+                    line = rng.choice(gen.INTEL_BAD)
+                elif rng.random() < 0.5:
+                    line = rng.choice(lpool)
+                else:
+                    line = rng.choice(gen.INTEL_LINES)
                 ops.append({'op': 'asm', 'line': line, 'c': c})
             elif y < 0.54:
                 line = rng.choice(gen.ATT_BAD) if rng.random() < bad_p else rng.choice(gen.ATT_LINES)
